@@ -87,11 +87,13 @@ pub fn gen_case(rng: &mut Rng, lim: &Limits) -> Case {
         block,
         // one source in eight chains inner sources: an empty block ahead of the data in every
         // second read (full blocks all the same, so every stream oracle applies unchanged)
-        mode: match (rng.flip(), rng.chance(1, 8)) {
-            (true, false) => FillMode::Int,
-            (false, false) => FillMode::Bytes,
-            (true, true) => FillMode::IntChained,
-            (false, true) => FillMode::BytesChained,
+        // and one in ten switches between integer and byte delivery from read to read
+        mode: match (rng.flip(), rng.usize_below(40)) {
+            (_, 0..=3) => FillMode::Mixed,
+            (true, 4..=8) => FillMode::IntChained,
+            (false, 4..=8) => FillMode::BytesChained,
+            (true, _) => FillMode::Int,
+            (false, _) => FillMode::Bytes,
         },
         hint: rng.flip(),
     }
